@@ -2,7 +2,7 @@
    default; a wrapped callback runs after the default effect succeeded. *)
 From Coq Require Import String List Bool Arith.
 From Verif Require Import Base.ListX Base.Json Base.Free Pub.Events Pub.Calls Pub.Value Pub.EffectSpec Pub.Util Pub.SideEffect Pub.Fed Pub.Monitors.
-From Verif Require Import Proofs.OnlyProofs Proofs.OrderProofs Proofs.EffectProofs Proofs.FedProofs.
+From Verif Require Import Proofs.OnlyProofs Proofs.OrderProofs Proofs.DeliveryProofs Proofs.ForwardIffProofs Proofs.TargetProofs Proofs.EffectProofs Proofs.FedProofs.
 Import ListNotations.
 Open Scope string_scope.
 Open Scope list_scope.
@@ -50,6 +50,30 @@ Theorem C04_remove_owned_only : forall a ids tr r, ids_of "object" a = Ok ids ->
   exists s, run_monitor (eff_step (KRemove ids)) e0 tr = Some s.
 Proof. intros a ids tr r Hi H. destruct (wp_sound ev ans estate _ _ _ _ (eff_remove a ids Hi) tr r H) as [s [E _]]. exists s. exact E. Qed.
 
+(* the federated Add / Remove defaults are the same functions as the client ones: against ANY world (which targets are owned, what
+   is stored) the Updates issued are exactly those of the owned targets, in the order named - data this server does not own is
+   never written, and a target not owned changes nothing for the owned ones after it *)
+Theorem C04_add_every_owned_target : forall owns stored env,
+  (forall i, env (ELock i) = AOk) -> (forall i, env (EDb "Owns" [JStr i]) = ABool (owns i)) ->
+  (forall i, env (EDb "Get" [JStr i]) = AJson (stored i)) -> (forall x, env (EDb "Update" [x]) = AOk) ->
+  forall a ops ts, ids_of "object" a = Ok ops -> ids_of "target" a = Ok ts ->
+  fst (run_env env (add a)) = Ok tt ->
+  updates (snd (run_env env (add a))) =
+    flat_map (fun t => if owns t then match collection_prop (stored t) with
+                                      | Ok cp => [EDb "Update" [canon (add_spec cp ops (stored t))]]
+                                      | _ => [] end else []) ts.
+Proof. intros owns stored env H1 H2 H3 H4 a ops ts Ho Ht Hr. exact (proj1 (add_updates_owned owns stored env H1 H2 H3 H4 a ops ts Ho Ht Hr)). Qed.
+Theorem C04_remove_every_owned_target : forall owns stored env,
+  (forall i, env (ELock i) = AOk) -> (forall i, env (EDb "Owns" [JStr i]) = ABool (owns i)) ->
+  (forall i, env (EDb "Get" [JStr i]) = AJson (stored i)) -> (forall x, env (EDb "Update" [x]) = AOk) ->
+  forall a ops ts, ids_of "object" a = Ok ops -> ids_of "target" a = Ok ts ->
+  fst (run_env env (remove a)) = Ok tt ->
+  updates (snd (run_env env (remove a))) =
+    flat_map (fun t => if owns t then match collection_prop (stored t) with
+                                      | Ok cp => match remove_spec cp ops (stored t) with Ok tp' => [EDb "Update" [canon tp']] | _ => [] end
+                                      | _ => [] end else []) ts.
+Proof. intros owns stored env H1 H2 H3 H4 a ops ts. exact (remove_updates_owned owns stored env H1 H2 H3 H4 a ops ts). Qed.
+
 Theorem C04_front : forall cp id t m t', t = JObj m -> prepend_on cp id t = Ok t' ->
   exists col p, (p = "items" \/ p = "orderedItems") /\
     jget cp t' = Some (prepend_iri p id col) /\ (forall k, k <> cp -> jget k t' = jget k t) /\
@@ -83,3 +107,5 @@ Print Assumptions C04_followers.
 Print Assumptions C04_other_replaces.
 Print Assumptions C04_follow_nothing.
 Print Assumptions C04_follow_reject.
+Print Assumptions C04_add_every_owned_target.
+Print Assumptions C04_remove_every_owned_target.
